@@ -16,7 +16,7 @@ use crate::{
         c05::frac_of,
     },
     refimpl::{Grp, Proof},
-    runner::{guarded, sub, CaseLog, PropertyDef, RunCtx, Sub, Tier, INCONCLUSIVE},
+    runner::{guarded, setup, sub, CaseLog, PropertyDef, RunCtx, Sub, Tier, INCONCLUSIVE},
     tapx::{challenges, tapped},
 };
 
@@ -247,10 +247,10 @@ pub fn oracle<E: Engine>(_ctx: &RunCtx, spec: &FsSpec, log: &mut CaseLog) -> Res
     let cfg = t.cfg;
     // prover side, base run
     let (proof, pev) = tapped(|| guarded(|| t.prove()));
-    let proof = proof?.map_err(|e| format!("prover refused a valid witness: {:?}", e))?;
+    let proof = setup(proof, "the prover refused or panicked on a valid witness (C01's subject)")?;
     let prover_base = challenges(&pev);
     let bytes = proof.to_bytes();
-    let rounds = Proof::parse_layout(&bytes).map_err(|e| format!("{:?}", e))?.l.len();
+    let rounds = Proof::parse_layout(&bytes).map_err(crate::runner::skip_err)?.l.len();
     let expected = 3 + rounds;
     if prover_base.len() != expected {
         return Err(format!("{} prover drew {} challenges, expected {}", INCONCLUSIVE, prover_base.len(), expected));
@@ -446,9 +446,9 @@ pub fn oracle<E: Engine>(_ctx: &RunCtx, spec: &FsSpec, log: &mut CaseLog) -> Res
             .values
             .iter()
             .zip(blind.iter())
-            .map(|(v, r)| E::commit(t.params.pc_gens(), &curve25519_dalek::scalar::Scalar::from(*v), r).map_err(|e| format!("{:?}", e)))
+            .map(|(v, r)| E::commit(t.params.pc_gens(), &curve25519_dalek::scalar::Scalar::from(*v), r).map_err(crate::runner::skip_err))
             .collect::<Result<_, _>>()?;
-        let st2 = RangeStatement::init(t.params.clone(), cs, t.promises.clone(), t.seed).map_err(|e| format!("{:?}", e))?;
+        let st2 = RangeStatement::init(t.params.clone(), cs, t.promises.clone(), t.seed).map_err(crate::runner::skip_err)?;
         let w2 = tari_bulletproofs_plus::range_witness::RangeWitness::init(
             t.values
                 .iter()
@@ -456,7 +456,7 @@ pub fn oracle<E: Engine>(_ctx: &RunCtx, spec: &FsSpec, log: &mut CaseLog) -> Res
                 .map(|(v, r)| tari_bulletproofs_plus::commitment_opening::CommitmentOpening::new(*v, r.clone()))
                 .collect(),
         )
-        .map_err(|e| format!("{:?}", e))?;
+        .map_err(crate::runner::skip_err)?;
         let (r2, ev2) = tapped(|| guarded(|| E::prove(&mut t.transcript(), &st2, &w2, &mut spec.base.rng.make())));
         r2?.map_err(|e| format!("prover refused after changing commitment {}: {:?}", j, e))?;
         let got = challenges(&ev2);
@@ -543,7 +543,7 @@ pub fn long_proof_oracle<E: Engine>(_ctx: &RunCtx, spec: &LongProofSpec, log: &m
     let t = Triple::<E>::build(&spec.base)?;
     let rounds = spec.rounds as usize;
     let bytes = crate::props::c16::garbage_bytes::<E>(spec.rounds, t.cfg.ext as u8, 0, spec.bulk);
-    let mut pf = Proof::parse_layout(&bytes).map_err(|e| format!("{:?}", e))?;
+    let mut pf = Proof::parse_layout(&bytes).map_err(crate::runner::skip_err)?;
     let j = pick(spec.j, rounds);
     let base_proof = match guarded(|| RangeProof::<E::P>::from_bytes(&bytes))? {
         Ok(p) => p,
